@@ -163,6 +163,12 @@ def build_terminfo(d):
         p = subprocess.run(['tic', '-o', os.path.join(d, 'db'), src], stdout=subprocess.PIPE, stderr=subprocess.PIPE)
         if p.returncode == 0:
             names.append(name)
+    # 8-bit control sequences (CSI = 0x9b), as in ncurses' xterm-8bit: D30
+    src = os.path.join(d, 'verif-8bit.ti')
+    with open(src, 'w') as f:
+        f.write('verif-8bit|8-bit controls,\n\tcolors#8, setaf=\\2333%p1%dm, sgr0=\\2330m, op=\\23339;49m,\n')
+    if subprocess.run(['tic', '-o', os.path.join(d, 'db'), src], stdout=subprocess.PIPE, stderr=subprocess.PIPE).returncode == 0:
+        names.append('verif-8bit')
     return os.path.join(d, 'db'), names
 
 
@@ -364,8 +370,11 @@ def check(ctx):
                 tstripped = [sgr.sub('', x) for x in tgot]
                 ctx.evaluations += 1
                 ctx.count('cli_padding_runs')
+                if term == 'verif-8bit':
+                    tstripped = [re.sub(r'[\x9b\ufffd][0-9;]*m', '', x) for x in tstripped]
                 if tstripped != exp:
                     ctx.fail('cli-colour', {'catalog': text[:2000], 'terminfo': open(os.path.join(os.path.dirname(tinfo), term + '.ti')).read()},
+                             finding=('D30' if term == 'verif-8bit' and any('UnicodeDecodeError' in x for x in tgot) else None), what=
                              'terminal with padding in setaf/sgr0: stripping SGR sequences from the coloured output does not give the uncoloured lines: %r' % (
                                  next(((a, b) for a, b in zip(tstripped + [None] * 99, exp + [None] * 99) if a != b), None),))
                 elif not any('\x1b[' in x for x in tgot):
